@@ -16,6 +16,15 @@ CHECKS = {
  'C12': ('E1 product', 'bounded-exhaustive enumeration of (cell, structure, replication triple) against a reference model',
          'Every (a,b,c) in {1..3}^3 (quick) / {1..4}^3 (thorough) x 5-6 cells (orthorhombic, triclinic both tilt signs, arbitrarily oriented) x 5 structures (impropers, extra columns, no tables, duplicate bond): cell rows, one replica per lattice offset with identical resolved record, terms per image with identical type ids, tables, original untouched, 1x1x1 identity.',
          'Coverage over the stated menus. Trusted: numpy, mc/ref/structure.py.', '3/C12'),
+ 'C14': ('E1 product', 'exhaustive enumeration of the whole mass table x boundary offsets x tolerances against a nearest-within-tolerance oracle',
+         'Finite domain: all 117 table entries x 9 (quick) / 17 (thorough) offsets x 3 tolerances, every midpoint and wide gap between mass-adjacent elements, masses below/above the table; each through the helper and through load_lmpdat alone / mixed with a valid / mixed with a non-atomic type (all-or-nothing fallback), plus a write/read cycle per element.',
+         'The mass table is the parameter of the property. Masses within 1e-9 of a tolerance boundary are skipped.', '3/C14'),
+ 'C16': ('E1 product', 'bounded-exhaustive enumeration of CML documents against the generating description',
+         'n<=4 atoms (thorough 5) x id schemes (sequential, reversed, every permutation, arbitrary strings, ids colliding with positions) x every bond set x 3 reference directions x 2 orders x 3 coordinate menus x 3 document flavours x 4 load routes; elements, coordinates, bonds in document order compared exactly.',
+         'Documents without XML namespace (the flavour of the repository examples). Trusted: xml.etree, mc/ref/cml.py.', '3/C16'),
+ 'C17': ('E1 product', 'exhaustive enumeration of all element pairs x cutoff sides x image placements, plus assemblies under shift/permutation, against a minimum-image reference',
+         'All 4753 unordered pairs of the 97 tabulated symbols x {cutoff-1e-3, cutoff+1e-3} x 7 placements (inside, low/high face, edge, corner) x 4 cells (none, cubic, triclinic +/-) x both atom orders; 4 mixed assemblies in 6 cells under shift-and-wrap and 4 permutations, against ref_bonds over images -2..2.',
+         'Radius / non-metal tables frozen at the pinned commit. Trusted: numpy, mc/ref/bonds.py.', '3/C17'),
 }
 
 NOT_YET = {}
